@@ -607,6 +607,9 @@ def sample_interps(w, c, rng, n):
 
 # ---------------------------------------------------------------------------------------------------------------
 def run(ctx):
+    # regenerate Gen/Gen_Walkers.v (walker dispatch tables) from $UP_REPO before the theorems are re-checked
+    from harness.ext._dispatch_common import prepare as _prepare_dispatch
+    _prepare_dispatch(ctx)
     import unified_planning as up
     from unified_planning.exceptions import UPTypeError
     from harness.gen.exprs import World
